@@ -201,41 +201,53 @@ Proof.
   injection Ha as Ha. lia.
 Qed.
 
-(* ------------------------------------------------------------------ tmp_char / table facts *)
-(* what the proofs need to know about the regenerated constants *)
+(* ------------------------------------------------------------------ temporary character / table facts *)
+(* what the proofs need to know about the regenerated constants.  The temporary character of cleanse exists only
+   in trees that un-escape in three replace passes (Gen/Tables.v: cleanse_tmp = Some t); when it exists it must
+   not occur in any text the row codec prints (digits, '-', '.', True, False). *)
+Definition tmp_not_printed (t : char) : bool :=
+  negb (numch t) && negb (t =? c_dot) && negb (mem_char t s_True) && negb (mem_char t s_False).
+
 Definition row_text_tables_ok : bool :=
-  negb (numch tmp_char) && negb (tmp_char =? c_dot)
-  && negb (mem_char tmp_char s_True) && negb (mem_char tmp_char s_False)
+  match cleanse_tmp with Some t => tmp_not_printed t | None => true end
   && (hdr_sep =? c_dot) && (ann_sep =? c_colon) && (dflt_sep =? c_eq).
 
 Lemma row_text_tables_ok_true : row_text_tables_ok = true.
 Proof. vm_compute. reflexivity. Qed.
 
-Lemma tmp_not_numch : numch tmp_char = false.
+Lemma tmp_not_printed_true t : cleanse_tmp = Some t -> tmp_not_printed t = true.
 Proof.
-  pose proof row_text_tables_ok_true as H. unfold row_text_tables_ok in H.
+  intros E. pose proof row_text_tables_ok_true as H. unfold row_text_tables_ok in H. rewrite E in H.
+  apply andb_true_iff in H as [H _]. apply andb_true_iff in H as [H _]. apply andb_true_iff in H as [H _]. exact H.
+Qed.
+
+Lemma tmp_not_numch t : cleanse_tmp = Some t -> numch t = false.
+Proof.
+  intros E. pose proof (tmp_not_printed_true t E) as H. unfold tmp_not_printed in H.
   repeat (apply andb_true_iff in H; destruct H as [H ?]). apply negb_true_iff in H. exact H.
 Qed.
 
-Lemma tmp_not_dot : (tmp_char =? c_dot) = false.
+Lemma tmp_not_dot t : cleanse_tmp = Some t -> (t =? c_dot) = false.
 Proof.
-  pose proof row_text_tables_ok_true as H. unfold row_text_tables_ok in H.
+  intros E. pose proof (tmp_not_printed_true t E) as H. unfold tmp_not_printed in H.
   repeat (apply andb_true_iff in H; destruct H as [H ?]).
-  match goal with X : negb (tmp_char =? c_dot) = true |- _ => apply negb_true_iff in X; exact X end.
+  match goal with X : negb (t =? c_dot) = true |- _ => apply negb_true_iff in X; exact X end.
 Qed.
 
-Lemma tmp_free_True : mem_char tmp_char s_True = false.
+Lemma tmp_free_True : str_ok s_True = true.
 Proof.
-  pose proof row_text_tables_ok_true as H. unfold row_text_tables_ok in H.
+  unfold str_ok. destruct cleanse_tmp as [t|] eqn:E; [|reflexivity].
+  pose proof (tmp_not_printed_true t E) as H. unfold tmp_not_printed in H.
   repeat (apply andb_true_iff in H; destruct H as [H ?]).
-  match goal with X : negb (mem_char tmp_char s_True) = true |- _ => apply negb_true_iff in X; exact X end.
+  match goal with X : negb (mem_char t s_True) = true |- _ => exact X end.
 Qed.
 
-Lemma tmp_free_False : mem_char tmp_char s_False = false.
+Lemma tmp_free_False : str_ok s_False = true.
 Proof.
-  pose proof row_text_tables_ok_true as H. unfold row_text_tables_ok in H.
+  unfold str_ok. destruct cleanse_tmp as [t|] eqn:E; [|reflexivity].
+  pose proof (tmp_not_printed_true t E) as H. unfold tmp_not_printed in H.
   repeat (apply andb_true_iff in H; destruct H as [H ?]).
-  match goal with X : negb (mem_char tmp_char s_False) = true |- _ => apply negb_true_iff in X; exact X end.
+  match goal with X : negb (mem_char t s_False) = true |- _ => exact X end.
 Qed.
 
 Lemma mem_char_forallb c p s :
@@ -246,8 +258,11 @@ Proof.
   destruct (x =? c) eqn:E; [|reflexivity]. apply N.eqb_eq in E. subst. congruence.
 Qed.
 
-Lemma tmp_free_print_Z z : mem_char tmp_char (print_Z z) = false.
-Proof. apply (mem_char_forallb _ numch); [apply tmp_not_numch|apply print_Z_numch]. Qed.
+Lemma tmp_free_print_Z z : str_ok (print_Z z) = true.
+Proof.
+  unfold str_ok. destruct cleanse_tmp as [t|] eqn:E; [|reflexivity]. apply negb_true_iff.
+  apply (mem_char_forallb _ numch); [apply (tmp_not_numch t E)|apply print_Z_numch].
+Qed.
 
 (* ------------------------------------------------------------------ floats *)
 Lemma split_char_nonempty c s : split_char c s <> [].
@@ -310,13 +325,16 @@ Qed.
 Lemma parse_float_canon s : float_canon s = true -> parse_float s = Some s.
 Proof. intros H. unfold parse_float. rewrite (float_canon_strip s H), H. reflexivity. Qed.
 
-Lemma tmp_not_floatch : floatch tmp_char = false.
+Lemma tmp_not_floatch t : cleanse_tmp = Some t -> floatch t = false.
 Proof.
-  unfold floatch. pose proof tmp_not_numch as H. unfold numch in H. rewrite H, tmp_not_dot. reflexivity.
+  intros E. unfold floatch. pose proof (tmp_not_numch t E) as H. unfold numch in H. rewrite H, (tmp_not_dot t E). reflexivity.
 Qed.
 
-Lemma tmp_free_float s : float_canon s = true -> mem_char tmp_char s = false.
-Proof. intros H. apply (mem_char_forallb _ floatch); [apply tmp_not_floatch|apply float_canon_chars, H]. Qed.
+Lemma tmp_free_float s : float_canon s = true -> str_ok s = true.
+Proof.
+  intros H. unfold str_ok. destruct cleanse_tmp as [t|] eqn:E; [|reflexivity]. apply negb_true_iff.
+  apply (mem_char_forallb _ floatch); [apply (tmp_not_floatch t E)|apply float_canon_chars, H].
+Qed.
 
 (* ------------------------------------------------------------------ header paths *)
 Lemma split_char_none c s : mem_char c s = false -> split_char c s = [s].
